@@ -619,7 +619,9 @@ def _split_code_lines(ast_nodes, text):
                     if (endpos.lineno > last_lineno and
                         _is_comment_or_blank(text[endpos.lineno])):
                         assert startpos.lineno < endpos.lineno
-                        if not text[endpos.lineno-1].endswith("\\"):
+                        prev_line = text[endpos.lineno-1]
+                        if (not prev_line.endswith("\\") or
+                            _is_comment_or_blank(prev_line)):
                             endpos = FilePos(endpos.lineno,1)
                 else:
                     # We're not at end of file, yet the next node starts in
